@@ -74,6 +74,8 @@ mod jsontypes;
 mod sourceview;
 mod types;
 mod utils;
+#[cfg(sourcemap_verif)]
+pub mod verif_hooks;
 
 #[cfg(feature = "ram_bundle")]
 pub mod ram_bundle;
